@@ -197,7 +197,7 @@ fn c18_keep_last_n1__rest() {
     keep_last_covers(&o);
 }
 
-// @check props=C18 tier=quick
+// @check props=C18 tier=thorough
 // @desc KEEP_LAST(depth), BY_RECEPTION_TIMESTAMP, cache with exactly 2 stored sample(s): one real add_reader_change; the new sample is stored last; a sample is removed only when the instance already holds depth ALIVE samples and then it is the oldest (first stored) ALIVE sample of that instance; all other samples are kept unchanged in their order; Rejected only for a reached resource limit and then nothing changes; NotAdded never; history, resource-limit and representation invariants hold again. Outside the trigger of KF-C18-1.
 // @bounds exactly 2 stored sample(s), KEEP_LAST(depth) with depth 1..=3, BY_RECEPTION_TIMESTAMP, 2 instance handles (both registered), 2 writers, each resource limit in {1,2,3,unlimited} (QoS consistent), all 5 change kinds for stored and incoming samples, source timestamps None or sec 0..4 x nanosec {0, 5*10^8}, symbolic sample/view/instance states and generation counts 0..2, instance_ownership empty; unwind 6 (lists <= 4 elements + 2)
 // @assume pre-state satisfies the representation invariant R1-R3, the KEEP_LAST invariant (<= depth ALIVE samples per instance) and the resource-limit invariant (all re-asserted after the step)
@@ -215,7 +215,7 @@ fn c18_keep_last_n2__rest() {
     keep_last_covers_n2(&o);
 }
 
-// @check props=C18 tier=quick
+// @check props=C18 tier=thorough
 // @desc KEEP_ALL, BY_RECEPTION_TIMESTAMP, cache with exactly 2 stored sample(s): one real add_reader_change never removes a stored sample; the new sample is stored last and all others are kept unchanged in order; Rejected only for a reached resource limit (then nothing changes); NotAdded never; resource-limit and representation invariants hold again.
 // @bounds exactly 2 stored sample(s), KEEP_ALL, BY_RECEPTION_TIMESTAMP, 2 instance handles (both registered), 2 writers, each resource limit in {1,2,3,unlimited} (QoS consistent), all 5 change kinds for stored and incoming samples, source timestamps None or sec 0..4 x nanosec {0, 5*10^8}, symbolic sample/view/instance states and generation counts 0..2, instance_ownership empty; unwind 6 (lists <= 4 elements + 2)
 // @assume pre-state satisfies the representation invariant R1-R3, the KEEP_LAST invariant (<= depth ALIVE samples per instance) and the resource-limit invariant (all re-asserted after the step)
@@ -282,7 +282,7 @@ fn c18_keep_last_n3__rest() {
     keep_last_covers_n2(&o);
 }
 
-// @check props=C18 tier=thorough
+// @check props=C18 tier=quick
 // @desc KEEP_ALL, BY_RECEPTION_TIMESTAMP, cache with exactly 1 stored sample(s): one real add_reader_change never removes a stored sample; the new sample is stored last and all others are kept unchanged in order; Rejected only for a reached resource limit (then nothing changes); NotAdded never; resource-limit and representation invariants hold again.
 // @bounds exactly 1 stored sample(s), KEEP_ALL, BY_RECEPTION_TIMESTAMP, 2 instance handles (both registered), 2 writers, each resource limit in {1,2,3,unlimited} (QoS consistent), all 5 change kinds for stored and incoming samples, source timestamps None or sec 0..4 x nanosec {0, 5*10^8}, symbolic sample/view/instance states and generation counts 0..2, instance_ownership empty; unwind 6 (lists <= 4 elements + 2)
 // @assume pre-state satisfies the representation invariant R1-R3, the KEEP_LAST invariant (<= depth ALIVE samples per instance) and the resource-limit invariant (all re-asserted after the step)
@@ -335,23 +335,6 @@ fn c18_keep_last_source_order_n2__rest() {
 }
 
 // @check props=C18 tier=thorough
-// @desc KEEP_ALL, BY_SOURCE_TIMESTAMP, cache with exactly 2 stored sample(s): one real add_reader_change never removes a stored sample; the new sample is stored (its position is the subject of C21) and all others are kept unchanged in order; Rejected only for a reached resource limit (then nothing changes); NotAdded never; resource-limit and representation invariants hold again.
-// @bounds exactly 2 stored sample(s), KEEP_ALL, BY_SOURCE_TIMESTAMP, 2 instance handles (both registered), 2 writers, each resource limit in {1,2,3,unlimited} (QoS consistent), all 5 change kinds for stored and incoming samples, source timestamps None or sec 0..4 x nanosec {0, 5*10^8}, symbolic sample/view/instance states and generation counts 0..2, instance_ownership empty; unwind 6 (lists <= 4 elements + 2)
-// @assume pre-state satisfies the representation invariant R1-R3, the KEEP_LAST invariant (<= depth ALIVE samples per instance) and the resource-limit invariant (all re-asserted after the step)
-// @assume DataReaderQos::is_consistent() holds; ownership SHARED; time-based filter off (minimum_separation 0)
-// @assume <InstanceHandle as PartialEq>::eq replaced by the loop-free handle_eq_stub (equivalence: c18_handle_eq_stub_is_equivalent)
-// @enc dcps::dcps_domain_participant::data_reader_entity::DataReaderEntity::add_reader_change
-// @enc dcps::dcps_domain_participant::data_reader_entity::InstanceState::update_state
-#[kani::proof]
-#[kani::unwind(6)]
-#[kani::solver(minisat)]
-#[kani::stub(<crate::infrastructure::instance::InstanceHandle as HandlePartialEq<crate::infrastructure::instance::InstanceHandle>>::eq, super::support_reader::handle_eq_stub)]
-fn c18_keep_all_source_order_n2() {
-    let o = c18_check(&plain(2), Hist::KeepAll, BY_SOURCE);
-    keep_all_covers(&o);
-}
-
-// @check props=C18 tier=thorough
 // @desc The KEEP_LAST contract when both instances have an instance_ownership entry (the entry of the instance is refreshed, or removed by a dispose/unregister): the table must not influence the sample cache under SHARED ownership.
 // @bounds exactly 2 stored samples, instance_ownership holds both instances, KEEP_LAST(1..=3), BY_RECEPTION_TIMESTAMP, otherwise as c18_keep_last_n2__rest; unwind 6
 // @assume pre-state satisfies the representation invariant R1-R3, the KEEP_LAST invariant (<= depth ALIVE samples per instance) and the resource-limit invariant (all re-asserted after the step)
@@ -387,18 +370,4 @@ fn c18_keep_last_new_instance__rest() {
     let o = c18_check(&st, Hist::KeepLast, BY_RECEPTION);
     kani::cover!(o.res == StepResult::Error, "dispose/unregister of an unknown instance is an error");
     kani::cover!(o.res == StepResult::Added && !o.replacement_case, "an ALIVE change of a new instance is stored");
-}
-
-// @check props=C18 tier=thorough known=KF-C18-1
-// @desc KF-C18-1: KEEP_LAST(depth) reader, the instance of the incoming change holds depth ALIVE samples and max_samples_per_instance (== all samples of the instance) or max_samples (== all ALIVE samples) is reached: the property demands replacement of the oldest sample, the implementation answers Rejected.
-// @bounds exactly 2 stored sample(s), KEEP_LAST(1..=3), BY_RECEPTION_TIMESTAMP, 2 instance handles (both registered), 2 writers, each resource limit in {1,2,3,unlimited} (QoS consistent), all 5 change kinds for stored and incoming samples, source timestamps None or sec 0..4 x nanosec {0, 5*10^8}, symbolic sample/view/instance states and generation counts 0..2, instance_ownership empty; unwind 6 (lists <= 4 elements + 2)
-// @assume the KF-C18-1 trigger (replacement case and a reached max_samples_per_instance / max_samples); R1-R3, KEEP_LAST and resource-limit invariants; consistent QoS
-// @assume <InstanceHandle as PartialEq>::eq replaced by the loop-free handle_eq_stub (equivalence: c18_handle_eq_stub_is_equivalent)
-// @enc dcps::dcps_domain_participant::data_reader_entity::DataReaderEntity::add_reader_change
-#[kani::proof]
-#[kani::unwind(6)]
-#[kani::solver(minisat)]
-#[kani::stub(<crate::infrastructure::instance::InstanceHandle as HandlePartialEq<crate::infrastructure::instance::InstanceHandle>>::eq, super::support_reader::handle_eq_stub)]
-fn c18_keep_last_rejects_at_limit_n2__known() {
-    c18_known(&plain(2));
 }
